@@ -39,6 +39,14 @@ def record_driver(ctx, driver, args, name):
     p = subprocess.run(cmd, cwd=VERIF, env=_env(path), stdout=subprocess.PIPE, stderr=subprocess.STDOUT)
     out = p.stdout.decode('utf-8', 'replace')
     if p.returncode != 0:
+        # the drivers are plain, valid pyPRISM usage that completes on a tree where the properties hold; an
+        # exception raised INSIDE pyPRISM (innermost frame in the package) is a verdict, anything else is ours
+        frames = [ln for ln in out.split('\n') if ln.strip().startswith('File "')]
+        if frames and os.sep + 'pyPRISM' + os.sep in frames[-1] and 'harness' not in frames[-1]:
+            ctx.violation('DriverCompletes', {'family': 'driver.' + driver, 'action': driver, 'args': [str(a) for a in args],
+                                              'detail': 'valid usage raised inside pyPRISM', 'what': out.strip().split('\n')[-1][:300],
+                                              'where': frames[-1].strip()[:300]})
+            return load(path), {'cmd': ' '.join(cmd[3:]), 'exit': p.returncode}
         raise MachineryError('driver %s failed:\n%s' % (driver, out[-3000:]))
     return load(path), {'cmd': ' '.join(cmd[3:]), 'exit': 0}
 
